@@ -257,9 +257,13 @@ func runVamana(c fw.Case, env *fw.Env, prop string) *fw.CaseResult {
 		switch {
 		case step == 0 && vc.Quant == "pq" && !insertOnly:
 			op = gen.Op{Kind: gen.OpInsert, Tag: "bulk-insert-for-training"}
+			// every bulk point carries its vector fields: the trigger (1000) must really be crossed
+			keep := g.PresentProb
+			g.PresentProb = 1
 			for i := 0; i < 1040; i++ {
 				op.Points = append(op.Points, model.Point{Id: g.NewId(), Doc: g.Doc()})
 			}
+			g.PresentProb = keep
 		case insertOnly:
 			op = gen.Op{Kind: gen.OpInsert, Tag: "insert-only"}
 			room := regimeCap - countWithVector(m, "v", vc.Dim)
